@@ -50,7 +50,11 @@ class LinS:
 
 
 def struct_size(fmt):
-    """Size of a struct format with explicit byte-order prefix (standard sizes), from the oracle table; None if unknown."""
+    """Size of a struct format with explicit byte-order prefix (standard sizes), from the oracle table; None if unknown.  Without
+    a prefix sizes and alignment are the platform's: a single code whose C type has the same width on every mainstream ABI
+    (char, short, int, long long) is still known; `l` / `L` (4 or 8 bytes) and any multi-field native format (padding) are not."""
+    if isinstance(fmt, str) and len(fmt) == 1 and fmt in 'bBhHiIqQ?c':
+        return oracle.STRUCT_SIZES.get(fmt)
     if not isinstance(fmt, str) or not fmt or fmt[0] not in '<>=!':
         return None
     total = 0
@@ -133,6 +137,19 @@ class Sizes:
                 (yk, yv), = b.terms.items()
                 return LinS({('mul',) + tuple(sorted([x, y], key=repr)): yv})
             return LinS({('mul', repr(a), repr(b)): 1})
+        if v[0] == 'call' and v[1] == 'struct.calcsize' and len(v[2]) == 1 and v[2][0][0] == 'sub' and not is_const(v[2][0][2]):
+            # struct.calcsize(CODES[self.name]): the name decides the size - one walk per key of the table
+            base = v[2][0][1]
+            keys = None
+            if base[0] == 'dict' and all(is_const(k) for k, _ in base[1]):
+                keys = [k[1] for k, _ in base[1]]
+            elif base[0] == 'name' and isinstance(self.facts.consts.get(base[1]), dict):
+                keys = list(self.facts.consts[base[1]].keys())
+            elif is_const(base) and isinstance(base[1], dict):
+                keys = list(base[1].keys())
+            if keys:
+                self.table_domains[cls] = keys
+                return LinS({('tablesize', cls, show(v[2][0][2])): 1})
         t = self.int_table_lookup(v)
         if t is not None:
             table, key = t
@@ -417,6 +434,14 @@ class Sizes:
                     per = self.lin(('call', 'len', (parts[2],), ()), st)
                     if per.is_const():
                         return self.lin(('call', 'len', (parts[4],), ()), st).scale(per.const)
+                if parts[0] == 'accum' and parts[4] == 'append':
+                    # chunks appended one per iteration, joined afterwards: iterations x the length of a chunk
+                    init, it, elem = parts[1], parts[2], parts[3]
+                    per = self.lin(('call', 'len', (elem,), ()), st)
+                    base = self.lin(('call', 'len', (('mcall', x[1], 'join', (init,), ()),), ()), st) if init[0] in ('list', 'tuple') and init[1] else LinS()
+                    empty_init = (init[0] in ('list', 'tuple') and not init[1]) or (init[0] == 'call' and init[1] == 'list' and not init[2])
+                    if per.is_const() and (empty_init or init[0] in ('list', 'tuple')):
+                        return base + self.lin(('call', 'len', (it,), ()), st).scale(per.const)
             # assert len(x) == y on this path
             if st is not None:
                 for ev in st.events:
